@@ -142,6 +142,18 @@ Definition multislice (s0 : arr) (rest : list arr) : arr :=
        a_get (nth (Z.to_nat k) (s0 :: rest) s0) (mk_vec3 IZ (vec3_x w) (vec3_y w) 0);
      a_num := a_num s0 * n |}.
 
+(* Array3DRepeater<T>(actual, repeatedSize): size() = repeatedSize; get(_where):
+     where = _where % repeatedSize (per axis, C++ %); if ((_where / repeatedSize) % 2) where = repeatedSize - 1 - where;
+     return actual->get(where)
+   i.e. a mirror-repeat with period repeatedSize (NOT the source's size): inside [0, repeatedSize) it is the
+   identity, so the source array's own get (clamping, for an ActualArray3D) decides what is returned. *)
+Definition rep_axis (n w : Z) : Z :=
+  let r := Z.rem w n in if Z.rem (Z.quot w n) 2 =? 0 then r else n - 1 - r.
+Definition rep_coord (rs w : vec3 IZ) : vec3 IZ :=
+  mk_vec3 IZ (rep_axis (vec3_x rs) (vec3_x w)) (rep_axis (vec3_y rs) (vec3_y w)) (rep_axis (vec3_z rs) (vec3_z w)).
+Definition repeater (a : arr) (rs : vec3 IZ) : arr :=
+  {| a_dims := rs; a_get := fun w => a_get a (rep_coord rs w); a_num := vec3_x rs * vec3_y rs * vec3_z rs |}.
+
 (* ---- getValueRange.  A range_t<T> is (lower, upper); the empty range (pos_inf, neg_inf) is None.
    range_t<T>::extend(t): lower = min(lower, t); upper = max(upper, t) *)
 Definition extend (r : option (Z * Z)) (v : Z) : option (Z * Z) :=
